@@ -3,7 +3,7 @@ ENGINES = [
      'kind_free_text': 'explicit-state breadth-first search whose transition function is the real object '
                        '(history replay on fresh objects, canonical state keys, two representative histories per '
                        'state as a differential oracle)'},
-    {'name': 'E2-choice', 'path': 'vf/engine/choice.py',
+    {'name': 'E2-choice', 'path': 'vf/core.py',
      'serves_properties': ['C01', 'C02', 'C03', 'C12', 'C13', 'C14', 'C15', 'C16', 'C17', 'C18', 'C19', 'C20'],
      'kind_free_text': 'stateless exhaustive enumeration of finite choice trees / input spaces with deviation '
                        'bounding, judged against reference models written from the documentation'},
